@@ -141,8 +141,10 @@ def reach(cls, spec, direct, pts, rng):
         first = direct
         pre_evaluate(first, probes)
         t0 = max(table)
-        offer = dict(table)
-        offer.update((0.5 * (a + b), table[a] + 0.3) for a, b in zip(sorted(table), sorted(table)[1:]))
+        # new points first, the conflicting one last (whatever order the merge walks the table in, something is offered
+        # before the conflict is met: sorted and insertion order both end with t0)
+        offer = dict((0.5 * (a + b), table[a] + 0.3) for a, b in zip(sorted(table), sorted(table)[1:]))
+        offer.update((T, v) for T, v in sorted(table.items()) if T != t0)
         offer[t0] = table[t0] + 1.0
         try:
             first.update(cls(None, None, offer, tref, rng))
